@@ -333,7 +333,7 @@ Definition fl_of (v : Model.val) : fl :=
 
 Definition val_of (c : cell) : option Model.val :=
   match c with
-  | CF (FQ q) => let r := Qred (q * 8) in if (Qden r =? 1)%positive then Some (Model.Fin (Qnum r)) else None
+  | CF (FQ q) => let z := (Qnum q * 8 / Zpos (Qden q))%Z in if Qeq_bool q (z # 8) then Some (Model.Fin z) else None
   | CF FNInf => Some Model.NInf
   | CF FNaN => Some Model.NaN
   | _ => None
